@@ -92,7 +92,20 @@ func genCase(rt *rapid.T) gCase {
 		c.PotClass = "small(<=1e6)"
 		c.Pot = rapid.Uint64Range(1, 1_000_000).Draw(rt, "pot")
 	}
+	// pots that a float64 cannot represent exactly (odd offsets above 2^53 .. 2^55) by construction
+	if c.PotClass == "above-2^53" && rapid.Bool().Draw(rt, "potOdd") {
+		c.Pot = uint64(1)<<rapid.IntRange(53, 55).Draw(rt, "potPow") + uint64(rapid.IntRange(1, 9).Draw(rt, "potOff"))
+		if c.Pot > totalSupply {
+			c.Pot = totalSupply - uint64(rapid.IntRange(0, 9).Draw(rt, "potBelowSupply"))
+		}
+	}
 	nPools := rapid.IntRange(1, 12).Draw(rt, "nPools")
+	// degenerate shapes where one party's share is exactly 1: a single pool with a single
+	// delegator (owner or not), margin 0 or 1, no cost
+	degenerate := rapid.IntRange(0, 5).Draw(rt, "degenerate") == 0
+	if degenerate {
+		nPools = rapid.IntRange(1, 2).Draw(rt, "nPoolsDegenerate")
+	}
 	budget := uint64(totalSupply)
 	key := 0
 	for p := 0; p < nPools; p++ {
@@ -118,6 +131,13 @@ func genCase(rt *rapid.T) gCase {
 		}
 		gp.Blocks = uint32(rapid.IntRange(0, 300).Draw(rt, "blocks"))
 		nd := rapid.IntRange(0, 6).Draw(rt, "nDeleg")
+		if degenerate {
+			nd = 1
+			gp.Cost = 0
+			if gp.MarginNum != 0 {
+				gp.MarginNum = gp.MarginDen
+			}
+		}
 		for d := 0; d < nd; d++ {
 			st := genStake(rt, budget, "stake")
 			budget -= st
@@ -246,7 +266,7 @@ func judge(c gCase, res *common.RewardCalculationResult) (string, string) {
 
 func TestC45(t *testing.T) {
 	rec := evi.New(t, "C45", evi.Exploration,
-		"reward snapshots with 1..12 pools, 0..6 delegators each (stakes from tiny to 2^55, total <= 4.5e16 lovelace), owner subsets (incl. non-delegating owners), registration flags, margins as rationals in [0,1] (0 and 1 over-represented), costs (0, 340 ada, up to the pot), block counts, a0, optional unpooled active stake and pools without parameters; reward pot in four classes (<=1e6, <=3e13 'realistic', <=2^53, <=4.5e16). Each case is evaluated 6 times because the implementation iterates Go maps. Oracle = the statement's invariants in exact integer arithmetic: sum of pool totals == pot == TotalRewards; operator + delegators == pool total; no amount > pot. non-trivial = success with >= 2 rewarded pools or a pool whose total exceeds its cost with >= 1 registered delegator; distinct by the whole case")
+		"reward snapshots with 1..12 pools, 0..6 delegators each (stakes from tiny to 2^55, total <= 4.5e16 lovelace), owner subsets (incl. non-delegating owners), registration flags, margins as rationals in [0,1] (0 and 1 over-represented), costs (0, 340 ada, up to the pot), block counts, a0, optional unpooled active stake and pools without parameters; reward pot in four classes (<=1e6, <=3e13 'realistic', <=2^53, <=4.5e16). Pots above 2^53 are drawn half the time as 2^k+odd (not representable as float64); one case in six is degenerate (1-2 pools, one delegator each, margin 0 or 1, no cost: a share of exactly 1). Each case is evaluated 6 times because the implementation iterates Go maps, alternately on re-used and on freshly built input objects. Oracle = the statement's invariants in exact integer arithmetic: sum of pool totals == pot == TotalRewards; operator + delegators == pool total; no amount > pot. non-trivial = success with >= 2 rewarded pools or a pool whose total exceeds its cost with >= 1 registered delegator; distinct by the whole case")
 	defer rec.Finish()
 	rec.Assume("snapshots are internally consistent (pool stake = sum of its delegators, total active stake = sum of pools + unpooled), as a ledger-produced snapshot is",
 		"errors returned by CalculateRewards are outside the statement (it speaks about successful calculations)")
@@ -259,6 +279,12 @@ func TestC45(t *testing.T) {
 		var firstKey, firstWhat string
 		ok := 0
 		for i := 0; i < reps; i++ {
+			if i%2 == 1 {
+				// every other evaluation gets freshly built inputs, the others re-use the
+				// objects of the previous call (a calculation must not depend on, or leave
+				// behind, anything in its inputs)
+				pots, snap, params = c.build()
+			}
 			res, err := common.CalculateRewards(pots, snap, params)
 			rec.Eval()
 			if err != nil {
